@@ -80,6 +80,7 @@ type Conn struct {
 	OnWrite func(w WriteRec)
 
 	Local, Remote net.Addr
+	NoRemoteAddr  bool // RemoteAddr() returns nil
 
 	// NonAtomic makes a Write call visible in chunks of ChunkSize bytes without
 	// holding the transport's write lock in between: concurrent Write calls
@@ -415,8 +416,13 @@ func (c *Conn) CloseCount() int {
 	return c.closes
 }
 
-func (c *Conn) LocalAddr() net.Addr           { return c.Local }
-func (c *Conn) RemoteAddr() net.Addr          { return c.Remote }
+func (c *Conn) LocalAddr() net.Addr { return c.Local }
+func (c *Conn) RemoteAddr() net.Addr {
+	if c.NoRemoteAddr {
+		return nil // "the remote network address, if known": an SCTP association that is gone has none
+	}
+	return c.Remote
+}
 func (c *Conn) SetDeadline(t time.Time) error { return nil }
 
 // SetReadDeadline is honoured by Read (virtual time inside a synctest bubble).
